@@ -298,3 +298,763 @@ def unit_tree(ctx):
             ctx.count("tree:spliced:" + ("unreadable" if back == "error" else "readable"))
     ctx.correspond("serialise", IMPORTS, "fun t => VS (serialise t)", "xml", cs, shard=120)
     ctx.correspond("xml_parse", IMPORTS, "fun s => show_parse_xml (xml_parse s)", "str", cp, shard=250)
+
+
+# ------------------------------------------------------------------ unit: attribute conversion
+from saml2_tophat import saml, ExtensionElement  # noqa: E402
+from saml2_tophat import attribute_converter as AC  # noqa: E402
+from saml2_tophat.assertion import Policy  # noqa: E402
+
+NF_UNSPEC = "urn:oasis:names:tc:SAML:2.0:attrname-format:unspecified"
+NF_BASIC = "urn:oasis:names:tc:SAML:2.0:attrname-format:basic"
+NF_URI = "urn:oasis:names:tc:SAML:2.0:attrname-format:uri"
+NF_SHIB = "urn:mace:shibboleth:1.0:attributeNamespace:uri"
+NAME_FORMATS = [NF_URI, NF_BASIC, NF_UNSPEC, NF_SHIB]
+EPTID_OID = "urn:oid:1.3.6.1.4.1.5923.1.1.1.10"
+
+_acs = None
+
+
+def real_acs():
+    global _acs
+    if _acs is None:
+        _acs = AC.ac_factory()
+    return _acs
+
+
+def lower_safe(s):
+    """the model lower-cases ASCII only: names whose other characters str.lower leaves alone"""
+    return all(ord(c) < 128 or c.lower() == c for c in s)
+
+
+def case_variants(rng, k):
+    return [k, k.lower(), k.upper(), "".join(c.upper() if rng.random() < 0.5 else c.lower() for c in k)]
+
+
+def name_pool(ctx):
+    """identity keys: in every map (all spellings), aliases, near-misses, outside the maps"""
+    rng = ctx.rng
+    pool = {}
+    for typ, ident, to, fro in translate_c08.raw_maps():
+        keys = [k for k, _ in to] + [v for _, v in fro]
+        pool.setdefault(ident, [])
+        for k in keys:
+            if k not in pool[ident]:
+                pool[ident].append(k)
+    outside = ["foo", " Foo ", "FOO", "", "x", "urn:oid:2.5.4.42", "URN:OID:2.5.4.42", " urn:oid:2.5.4.3 ", "givenName ", " givenName", "given Name", "givenNam",
+               "givenNamee", "éa", "日本", "a\tb", "a\"b", "<sn>", "&amp;", "mail\n", "eduPersonTargetedId", "urn:mace:dir:attribute-def:cn", "http://schemas.xmlsoap.org/claims/upn"]
+    return pool, [o for o in outside if lower_safe(o)]
+
+
+def rand_identity(ctx, pool, outside, nf, vals, nmax=6):
+    rng = ctx.rng
+    ident = {}
+    mapped = pool.get(nf) or pool[NF_URI]
+    for _ in range(rng.randint(0, nmax)):
+        r = rng.random()
+        if r < 0.62:
+            k = rng.choice(case_variants(rng, rng.choice(mapped)))
+        elif r < 0.72:
+            k = rng.choice(["eduPersonTargetedID", "EDUPERSONTARGETEDID", "givenName", "GIVENNAME", "gn", "pvp-givenname", "sn", "surname", "mail", "rfc822Mailbox", "emailAddress", "upn"])
+        elif r < 0.8:
+            k = rng.choice(case_variants(rng, rng.choice(pool[rng.choice(list(pool))])))      # a name of ANOTHER map
+        else:
+            k = rng.choice(outside)
+        nv = rng.choice([0, 1, 1, 1, 2, 3, 7])
+        ident[k] = [rng.choice(vals) for _ in range(nv)]
+    return ident
+
+
+def ident_coq(ident):
+    return clist(list(ident.items()), lambda kv: "(%s, %s)" % (cstr(kv[0]), clist(kv[1], cstr)))
+
+
+def attr_obj_val(a):
+    vals = []
+    for v in a.attribute_value:
+        if v.extension_elements:
+            e = v.extension_elements[0]
+            vals.append([e.attributes.get("Format", ""), e.text or ""])
+        else:
+            vals.append(v.text or "")
+    return [a.name, a.name_format, a.friendly_name, vals]
+
+
+def attr_spec_coq(sp):
+    name, nf, fr, vals = sp
+    return "{| at_name := %s; at_format := %s; at_friendly := %s; at_values := %s |}" % (
+        cstr(name), copt(nf, cstr), copt(fr, cstr),
+        clist(vals, lambda v: "(AText %s)" % cstr(v) if isinstance(v, str) else "(ANameID %s %s)" % (cstr(v[0]), cstr(v[1]))))
+
+
+def attr_spec_obj(sp):
+    name, nf, fr, vals = sp
+    avs = []
+    for v in vals:
+        if isinstance(v, str):
+            av = saml.AttributeValue()
+            av.set_text(v)
+        else:
+            attrs = {"Format": v[0]} if v[0] else {}
+            av = saml.AttributeValue(extension_elements=[ExtensionElement("NameID", saml.NAMESPACE, attributes=attrs, text=v[1])])
+        avs.append(av)
+    a = saml.Attribute(name=name, friendly_name=fr, attribute_value=avs)
+    a.name_format = nf
+    return a
+
+
+def ava_val(ava):
+    out = []
+    for k in sorted(ava):
+        vs = []
+        for v in ava[k]:
+            if isinstance(v, dict):
+                (tag, cv), = v.items()
+                extra = sorted(set(cv) - {"format", "value"})
+                vs.append([tag, cv.get("format"), cv.get("value")] + extra)
+            else:
+                vs.append(v)
+        out.append([k, vs])
+    return out
+
+
+def through_xml(attr_objs):
+    """the attributes as the SP's parser delivers them"""
+    st = saml.AttributeStatement(attribute=attr_objs)
+    return saml.attribute_statement_from_string(str(st))
+
+
+def unit_attrs(ctx):
+    rng = ctx.rng
+    pool, outside = name_pool(ctx)
+    vals = [v for v in value_corpus(ctx, 80) if len(v) <= 40 and encodable(v) and in_classes(v)]
+    acs = real_acs()
+    # ---- str.strip on every isspace character and its neighbours
+    spaces = [c for c in range(0x110000) if chr(c).isspace()]
+    cs = []
+    probe = sorted(set(spaces + [c + d for c in spaces for d in (-1, 1) if 0x20 <= c + d] + [0x200b, 0xfeff, 0x180e, 0x61]))
+    probe = [c for c in probe if encodable(chr(c))]
+    for c in probe:
+        for s in (chr(c), chr(c) + "x" + chr(c), "x" + chr(c) + "y", " " + chr(c) + "x" + chr(c) + "\t"):
+            cs.append(dict(id=len(cs), coq=cstr(s), impl=s.strip(), show=[hex(c), s]))
+    for v in vals:
+        cs.append(dict(id=len(cs), coq=cstr(v), impl=v.strip(), show=v))
+    ctx.correspond("strip", IMPORTS, "fun s => VS (strip s)", "str", cs, shard=400)
+
+    # ---- Policy.get for lifetime / name_form: the SP's section, the default section, the built-in default
+    cpol = []
+    SPID = env.SP_ID
+    secs = [None, {}, {"lifetime": {"minutes": 7}}, {"lifetime": None}, {"name_form": NF_BASIC}, {"name_form": None},
+            {"lifetime": {"hours": 2, "seconds": 3}, "name_form": NF_UNSPEC}, {"lifetime": {"days": 2}}]
+    for spsec, dsec, other in itertools.product(secs, secs, (False, True)):
+        restr = {}
+        if spsec is not None:
+            restr[SPID] = spsec
+        if dsec is not None:
+            restr["default"] = dsec
+        if other:
+            restr["https://other.example.org/sp"] = {"lifetime": {"minutes": 1}, "name_form": NF_SHIB}
+        pol = Policy(copy.deepcopy(restr))
+        import datetime
+
+        def lay(key, conv):
+            def sec(x):
+                if x is None or key not in x:
+                    return "None"
+                return "(Some %s)" % copt(x[key], conv)
+            return "{| l_any := %s; l_sp := %s; l_default := %s |}" % (cbool(bool(restr)), sec(spsec), sec(dsec))
+        lt = pol.get_lifetime(SPID)
+        cpol.append(dict(id=len(cpol), coq="(%s, %s)" % (lay("lifetime", lambda d: cz(int(datetime.timedelta(**d).total_seconds()))), lay("name_form", cstr)),
+                         impl=[int(datetime.timedelta(**lt).total_seconds()), pol.get_name_form(SPID)], show=restr))
+    ctx.correspond("policy_get", IMPORTS, "fun p : layered Z * layered str => VL [VZ (policy_get (fst p) 3600%Z); VS (policy_get (snd p) NAME_FORMAT_URI)]",
+                   "(layered Z * layered str)", cpol, shard=200)
+
+    # ---- from_local (IdP side) and to_local (SP side) over the real converters
+    cf, cl, cx = [], [], []
+    n = 260 if ctx.quick else 5000
+    for i in range(n):
+        nf = rng.choice(NAME_FORMATS + ([NF_URI] * 3) + ["urn:example:no-such-format", ""])
+        ident = rand_identity(ctx, pool, outside, nf, vals)
+        got = AC.from_local(acs, copy.deepcopy(ident), nf)
+        cf.append(dict(id=i, coq="(%s, %s)" % (ident_coq(ident), cstr(nf)), impl=None if got is None else [attr_obj_val(a) for a in got],
+                       show=dict(identity=ident, name_format=nf)))
+        ctx.count("from_local:" + ("no converter" if got is None else "converted"))
+        if got is None:
+            continue
+        allow = rng.random() < 0.4
+        parsed = through_xml(got)
+        ava = AC.to_local(acs, parsed, allow)
+        specs = [attr_obj_val(a) for a in got]
+        cl.append(dict(id=len(cl), coq="(%s, %s)" % (cbool(allow), clist(specs, attr_spec_coq)), impl=ava_val(ava),
+                       show=dict(identity=ident, name_format=nf, allow_unknown=allow, read=ava_val(ava))))
+        ctx.nontriv(("attrs", json.dumps(ident, sort_keys=True), nf, allow))
+    # hand-made attributes: every name-format / name / value shape the reader distinguishes
+    names = [EPTID_OID, "urn:oid:2.5.4.42", " urn:oid:2.5.4.42 ", "URN:OID:2.5.4.42", "urn:oid:2.5.4.4", "urn:mace:dir:attribute-def:cn", "urn:mace:dir:attribute-def:eduPersonTargetedID",
+             "http://schemas.xmlsoap.org/claims/upn", "http://schemas.xmlsoap.org/claims/commonname", "http://schemas.xmlsoap.org/ws/2005/05/identity/claims/upn",
+             "foo", " Foo ", "", "givenName"]
+    for i in range(200 if ctx.quick else 4000):
+        specs = []
+        for _ in range(rng.randint(1, 4)):
+            vs = []
+            for _ in range(rng.choice([0, 1, 1, 2, 3])):
+                if rng.random() < 0.25:
+                    vs.append([rng.choice(["urn:oasis:names:tc:SAML:2.0:nameid-format:persistent", "", "f"]), rng.choice(["", "abc", " p ", "  "] + vals[:20])])
+                else:
+                    vs.append(rng.choice(vals))
+            specs.append([rng.choice(names), rng.choice(NAME_FORMATS + [None, "urn:example:other"]), rng.choice([None, "fr", "givenName"]), vs])
+        allow = rng.random() < 0.5
+        parsed = through_xml([attr_spec_obj(sp) for sp in specs])
+        ava = AC.to_local(acs, parsed, allow)
+        cl.append(dict(id=len(cl), coq="(%s, %s)" % (cbool(allow), clist(specs, attr_spec_coq)), impl=ava_val(ava),
+                       show=dict(attributes=specs, allow_unknown=allow, read=ava_val(ava))))
+    ctx.correspond("from_local", IMPORTS, "fun p : identity * str => show_attributes (from_local default_acs (fst p) (snd p))", "(identity * str)", cf, shard=60)
+    ctx.correspond("list_to_local", IMPORTS, "fun p : bool * list attribute => show_ava (list_to_local default_acs (fst p) (snd p))", "(bool * list attribute)", cl, shard=60)
+
+
+# ------------------------------------------------------------------ end to end: IdP -> binding -> SP
+import calendar  # noqa: E402
+import html.parser  # noqa: E402
+
+from saml2_tophat import BINDING_HTTP_POST, BINDING_HTTP_REDIRECT, BINDING_SOAP  # noqa: E402
+from saml2_tophat import time_util  # noqa: E402
+from saml2_tophat.config import SPConfig, IdPConfig  # noqa: E402
+from saml2_tophat.saml import (NAMEID_FORMAT_PERSISTENT, NAMEID_FORMAT_TRANSIENT, NAMEID_FORMAT_EMAILADDRESS,  # noqa: E402
+                               NAMEID_FORMAT_UNSPECIFIED)
+
+NOW = env.NOW
+SAML_NS = "urn:oasis:names:tc:SAML:2.0:assertion"
+SAMLP_NS = "urn:oasis:names:tc:SAML:2.0:protocol"
+DS_NS = "http://www.w3.org/2000/09/xmldsig#"
+XSI_NS = "http://www.w3.org/2001/XMLSchema-instance"
+PASSWORD = "urn:oasis:names:tc:SAML:2.0:ac:classes:Password"
+KEYNUM = {"idp": 7, "sp": 21, "sp2": 22, "other": 23}
+IDS = {
+    "plain": (env.IDP_ID, env.SP_ID),
+    "special": ("https://idp.example.org/idp?tenant=a&b=<1>\"q\"", "https://sp.example.org/sp?x=1&y='2' é"),
+}
+ACS = {"post": env.SP_ACS_POST, "redirect": env.SP_ACS_REDIRECT, "soap": env.SP_ACS_POST}
+BINDING = {"post": BINDING_HTTP_POST, "redirect": BINDING_HTTP_REDIRECT, "soap": BINDING_SOAP}
+SIG_ALGS = [None, "http://www.w3.org/2000/09/xmldsig#rsa-sha1", "http://www.w3.org/2001/04/xmldsig-more#rsa-sha224",
+            "http://www.w3.org/2001/04/xmldsig-more#rsa-sha256", "http://www.w3.org/2001/04/xmldsig-more#rsa-sha384",
+            "http://www.w3.org/2001/04/xmldsig-more#rsa-sha512"]
+DIGEST_ALGS = [None, "http://www.w3.org/2000/09/xmldsig#sha1", "http://www.w3.org/2001/04/xmldsig-more#sha224",
+               "http://www.w3.org/2001/04/xmlenc#sha256", "http://www.w3.org/2001/04/xmldsig-more#sha384", "http://www.w3.org/2001/04/xmlenc#sha512"]
+POLICIES = {
+    # name -> (policy dict builder(sp_id), lifetime seconds, name_form) ; seconds/name_form are what the ORACLE expects (documented semantics)
+    "default15": lambda sp: {"default": {"lifetime": {"minutes": 15}, "attribute_restrictions": None, "name_form": NF_URI}},
+    "builtin": lambda sp: {"default": {"attribute_restrictions": None}},
+    "sp-short": lambda sp: {"default": {"lifetime": {"minutes": 15}, "name_form": NF_URI}, sp: {"lifetime": {"seconds": 90}}},
+    "sp-basic": lambda sp: {"default": {"lifetime": {"hours": 2}, "name_form": NF_URI}, sp: {"name_form": NF_BASIC}},
+    "default-basic": lambda sp: {"default": {"lifetime": {"minutes": 5}, "name_form": NF_BASIC}},
+    "unspecified": lambda sp: {"default": {"lifetime": {"days": 2}, "name_form": NF_UNSPEC}},
+    "shib": lambda sp: {"default": {"lifetime": {"minutes": 10}, "name_form": NF_SHIB}},
+    "other-sp": lambda sp: {"default": {"lifetime": {"minutes": 20}}, "https://other.example.org/sp": {"lifetime": {"seconds": 5}, "name_form": NF_BASIC}},
+    "sp-none": lambda sp: {"default": {"lifetime": {"minutes": 20}, "name_form": NF_BASIC}, sp: {"lifetime": None, "name_form": None}},
+    "no-converter": lambda sp: {"default": {"lifetime": {"minutes": 15}, "name_form": "urn:example:no-such-format"}},
+}
+
+
+def _secs(d):
+    import datetime
+    return int(datetime.timedelta(**d).total_seconds())
+
+
+def policy_layers(pol, sp_id):
+    """Coq terms (layered Z, layered str) of a policy dict as Policy.get sees it for sp_id"""
+    def lay(key, conv):
+        def sec(x):
+            if x is None or key not in x:
+                return "None"
+            return "(Some %s)" % copt(x[key], conv)
+        return "{| l_any := %s; l_sp := %s; l_default := %s |}" % (cbool(bool(pol)), sec(pol.get(sp_id)), sec(pol.get("default")))
+    return lay("lifetime", lambda d: cz(_secs(d))), lay("name_form", cstr)
+
+
+def policy_expect(pol, sp_id):
+    """documented semantics (oracle side): the SP's own setting, else the default section's, else 1 hour / uri"""
+    out = []
+    for key, builtin in (("lifetime", {"hours": 1}), ("name_form", NF_URI)):
+        v = None
+        if sp_id in pol and key in pol[sp_id]:
+            v = pol[sp_id][key]
+        elif "default" in pol and key in pol["default"]:
+            v = pol["default"][key]
+        out.append(builtin if v is None else v)
+    return _secs(out[0]), out[1]
+
+
+class World(object):
+    """IdP and SP objects configured from each other's GENERATED metadata, cached per configuration"""
+
+    def __init__(self):
+        self.md, self.sps, self.idps = {}, {}, {}
+        env.tool_inprocess(True)
+
+    def sp_conf(self, c):
+        idp_id, sp_id = IDS[c["ids"]]
+        over = {"entityid": sp_id,
+                "sp": {"want_response_signed": c["wants"][0], "want_assertions_signed": c["wants"][1],
+                       "want_assertions_or_response_signed": c["wants"][2], "allow_unsolicited": c["allow_unsolicited"]},
+                "allow_unknown_attributes": c["allow_unknown"]}
+        conf = env.sp_conf(**over)
+        if c["slack"]:
+            conf["accepted_time_diff"] = c["slack"]
+        if c["sp_enc"] == "none":
+            del conf["encryption_keypairs"]
+        elif c["sp_enc"] == "two":
+            conf["encryption_keypairs"] = [{"key_file": env.key(k), "cert_file": env.cert(k)} for k in ("sp2", "sp")]
+        return conf
+
+    def idp_conf(self, c):
+        idp_id, sp_id = IDS[c["ids"]]
+        idp = {"policy": POLICIES[c["policy"]](sp_id)}
+        for k in ("sign_response", "sign_assertion", "encrypt_assertion"):
+            if c["idp_defaults"].get(k) is not None:
+                idp[k] = c["idp_defaults"][k]
+        return env.idp_conf(entityid=idp_id, idp=idp)
+
+    @staticmethod
+    def sp_key(c):
+        return (c["ids"], tuple(c["wants"]), c["allow_unsolicited"], c["allow_unknown"], c["slack"], c["sp_enc"])
+
+    @staticmethod
+    def idp_key(c):
+        return (c["ids"], c["policy"], tuple(sorted((k, v) for k, v in c["idp_defaults"].items())))
+
+    def get(self, c):
+        ks, ki = self.sp_key(c), self.idp_key(c)
+        if ("sp", ks) not in self.md:
+            self.md[("sp", ks)] = env.metadata_of(self.sp_conf(c), SPConfig)
+        if ("idp", ki) not in self.md:
+            self.md[("idp", ki)] = env.metadata_of(self.idp_conf(c), IdPConfig)
+        if (ks, ki) not in self.sps:
+            from saml2_tophat.client import Saml2Client
+            conf = self.sp_conf(c)
+            conf["metadata"] = {"inline": [self.md[("idp", ki)]]}
+            self.sps[(ks, ki)] = Saml2Client(config=SPConfig().load(copy.deepcopy(conf)))
+        if (ki, ks) not in self.idps:
+            from saml2_tophat.server import Server
+            conf = self.idp_conf(c)
+            conf["metadata"] = {"inline": [self.md[("sp", ks)]]}
+            self.idps[(ki, ks)] = Server(config=IdPConfig().load(copy.deepcopy(conf)))
+        return self.idps[(ki, ks)], self.sps[(ks, ki)]
+
+
+class _Form(html.parser.HTMLParser):
+    def __init__(self):
+        super().__init__(convert_charrefs=True)
+        self.fields = {}
+
+    def handle_starttag(self, tag, attrs):
+        d = dict(attrs)
+        if tag == "input" and d.get("type") == "hidden":
+            self.fields[d.get("name")] = d.get("value")
+    handle_startendtag = handle_starttag
+
+
+def transport(idp, binding, xml, destination, relay_state="rs"):
+    """what the SP's web layer receives: apply_binding on the IdP side, an independent reader on the other"""
+    info = idp.apply_binding(BINDING[binding], xml, destination, relay_state, response=True)
+    if binding == "post":
+        f = _Form()
+        f.feed(info["data"])
+        return f.fields["SAMLResponse"]
+    if binding == "redirect":
+        loc = dict(info["headers"])["Location"]
+        return dict(urllib.parse.parse_qsl(loc.split("?", 1)[1]))["SAMLResponse"]
+    return info["data"]
+
+
+def default_case():
+    return dict(ids="plain", wants=(False, False, False), allow_unsolicited=False, allow_unknown=False, slack=0, sp_enc="own",
+                policy="default15", idp_defaults={}, binding="post",
+                flags=dict(sign_response=False, sign_assertion=False, encrypt_assertion=False), give_cert=None,
+                sign_alg=None, digest_alg=None, self_contained=True,
+                identity={"givenName": ["Anna"]}, name_id=dict(text="subject-1", format=NAMEID_FORMAT_TRANSIENT, spq=None, nq=None),
+                authn={"class_ref": PASSWORD}, irt="req-1", solicited=True, session_nooa=None, offset=0)
+
+
+def build(world, c):
+    """run the IdP; returns (xml text | Exn)"""
+    idp, sp = world.get(c)
+    idp_id, sp_id = IDS[c["ids"]]
+    n = c["name_id"]
+    nid = saml.NameID(text=n["text"], format=n["format"], sp_name_qualifier=n["spq"], name_qualifier=n["nq"])
+    kw = dict(c["flags"])
+    if c["give_cert"]:
+        kw["encrypt_cert_assertion"] = env.cert_b64(c["give_cert"])
+    if c["sign_alg"]:
+        kw["sign_alg"] = c["sign_alg"]
+    if c["digest_alg"]:
+        kw["digest_alg"] = c["digest_alg"]
+    if c["session_nooa"] is not None:
+        kw["session_not_on_or_after"] = env.ts(c["session_nooa"])
+    if not c["self_contained"]:
+        kw["encrypt_assertion_self_contained"] = False
+    with env.Clock(NOW):
+        try:
+            r = idp.create_authn_response(copy.deepcopy(c["identity"]), c["irt"], ACS[c["binding"]], sp_id, name_id=nid,
+                                          authn=copy.deepcopy(c["authn"]), **kw)
+        except Exception as e:  # noqa
+            return Exn(type(e).__name__)
+    return "%s" % r
+
+
+def deliver(world, c, xml):
+    """binding + SP; returns Exn | None | observable list"""
+    idp, sp = world.get(c)
+    try:
+        wire = transport(idp, c["binding"], xml, ACS[c["binding"]])
+    except Exception as e:  # noqa
+        return Exn("transport:" + type(e).__name__)
+    outstanding = {c["irt"]: "/came-from"} if c["solicited"] else {"some-other-request": "/x"}
+    with env.Clock(NOW + c["offset"]):
+        try:
+            ar = sp.parse_authn_request_response(wire, BINDING[c["binding"]], outstanding)
+        except Exception as e:  # noqa
+            return Exn(type(e).__name__)
+        if ar is None:
+            return None
+        try:
+            nid = ar.name_id
+            if ar.assertion is None:
+                # nothing could be read (e.g. an assertion the SP cannot decrypt): the object exists but carries no assertion
+                nooa = ar.session_not_on_or_after if ar.session_not_on_or_after > 0 else ar.not_on_or_after
+                return [None if nid is None else [nid.text or "", nid.format, nid.sp_name_qualifier, nid.name_qualifier], ava_val(ar.ava or {}),
+                        ar.in_response_to, ar.issuer(), [], int(nooa), ar.came_from]
+            info = ar.session_info()
+            authn = [[cls, list(auths), calendar.timegm(time_util.str_to_time(inst))] for cls, auths, inst in ar.authn_info()]
+            return [None if nid is None else [nid.text or "", nid.format, nid.sp_name_qualifier, nid.name_qualifier], ava_val(ar.ava),
+                    ar.in_response_to, ar.issuer(), authn, int(info["not_on_or_after"]), ar.came_from]
+        except Exception as e:  # noqa
+            return Exn("reading:" + type(e).__name__)
+
+
+def q(tag, ns=SAML_NS):
+    return "{%s}%s" % (ns, tag)
+
+
+def inspect(world, c, xml):
+    """(response signed, assertion signed, encrypted, assertion element) of the built message"""
+    idp, sp = world.get(c)
+    root = ET.fromstring(xml.encode("utf-8"))
+    rsig = root.find(q("Signature", DS_NS)) is not None
+    enc = root.find(q("EncryptedAssertion")) is not None
+    if enc:
+        keyfile = env.key({"own": "sp", "two": "sp2", "none": c["give_cert"] or "sp"}[c["sp_enc"]] if not c["give_cert"] else c["give_cert"])
+        plain = sp.sec.crypto.decrypt(xml, keyfile, sp.sec.id_attr) if hasattr(sp.sec, "id_attr") else None
+        root2 = ET.fromstring(plain.encode("utf-8") if isinstance(plain, str) else plain)
+        a = root2.find(q("EncryptedAssertion") + "/" + q("Assertion"))
+        if a is None:
+            a = root2.find(q("Assertion"))
+    else:
+        a = root.find(q("Assertion"))
+    asig = a is not None and a.find(q("Signature", DS_NS)) is not None
+    return rsig, asig, enc, a
+
+
+PREFIX = {SAML_NS: "ns1:", SAMLP_NS: "ns0:", XSI_NS: "xsi:", DS_NS: "ds:"}
+
+
+def canon_name(n):
+    if n.startswith("{"):
+        ns, local = n[1:].split("}", 1)
+        return PREFIX.get(ns, "{%s}" % ns) + local
+    return n
+
+
+def canon_el(e):
+    return [canon_name(e.tag), sorted([canon_name(k), v] for k, v in e.attrib.items()), e.text or "", [canon_el(k) for k in e]]
+
+
+def payload_canon(a):
+    """Issuer, NameID, AuthnContext, AttributeStatement of the assertion element, canonical"""
+    out = []
+    for path in ("Issuer", "Subject/NameID", "AuthnStatement/AuthnContext", "AttributeStatement"):
+        e = a.find("/".join(q(p) for p in path.split("/")))
+        if e is not None:
+            out.append(canon_el(e))
+    return out
+
+
+# ---- Coq terms of a case
+def obool(b):
+    return copt(b, cbool)
+
+
+def case_coq(c):
+    idp_id, sp_id = IDS[c["ids"]]
+    pol = POLICIES[c["policy"]](sp_id)
+    lt, nform = policy_layers(pol, sp_id)
+    d = c["idp_defaults"]
+    idp = ("{| i_entity_id := %s; i_acs := default_acs; i_name_form := %s; i_lifetime := %s; i_sign_response := %s; "
+           "i_sign_assertion := %s; i_encrypt_assertion := %s; i_key := 7%%N; i_now := %s |}"
+           % (cstr(idp_id), nform, lt, obool(d.get("sign_response")), obool(d.get("sign_assertion")), obool(d.get("encrypt_assertion")), cz(NOW)))
+    certs = {"own": [21], "two": [22, 21], "none": []}[c["sp_enc"]]
+    nl = lambda l: "[" + "; ".join("%d%%N" % x for x in l) + "]"  # noqa: E731
+    md = "{| m_enc_certs := %s |}" % nl(certs)
+    binding = c["binding"]
+    ra = {"post": [env.SP_ACS_POST], "redirect": [env.SP_ACS_REDIRECT], "soap": None}[binding]
+    outstanding = [(c["irt"], "/came-from")] if c["solicited"] else [("some-other-request", "/x")]
+    cfg = ("{| entity_id := %s; return_addrs := %s; wrs := %s; was := %s; waors := %s; allow_unsolicited := %s; "
+           "dest_regex_set := false; dest_regex_match := false; slack := %s; now := %s; asynch := %s; outstanding := %s; "
+           "conv_info := None; test_mode := false |}"
+           % (cstr(sp_id), copt(ra, lambda l: clist(l, cstr)), cbool(c["wants"][0]), cbool(c["wants"][1]), cbool(c["wants"][2]),
+              cbool(c["allow_unsolicited"]), cz(c["slack"]), cz(NOW + c["offset"]), cbool(binding != "soap"),
+              clist(outstanding, lambda kv: "(%s, %s)" % (cstr(kv[0]), cstr(kv[1])))))
+    sp = ("{| s_cfg := %s; s_keys := {| k_md := generated_idp_md %s 7%%N; k_only_md := true; k_dec := %s |}; s_acs := default_acs; s_allow_unknown := %s |}"
+          % (cfg, cstr(idp_id), nl(certs), cbool(c["allow_unknown"])))
+    n = c["name_id"]
+    a = c["authn"] or {}
+    f = c["flags"]
+    args = ("{| g_identity := %s; g_name_id := {| n_text := %s; n_format := %s; n_spq := %s; n_nq := %s |}; g_class_ref := %s; g_authn_auth := %s; "
+            "g_authn_instant := %s; g_irt := %s; g_destination := %s; g_sp := %s; g_sign_response := %s; g_sign_assertion := %s; "
+            "g_encrypt_assertion := %s; g_encrypt_cert := %s; g_self_contained := %s; g_session_nooa := %s |}"
+            % (ident_coq(c["identity"]), cstr(n["text"]), copt(n["format"], cstr), copt(n["spq"], cstr), copt(n["nq"], cstr),
+               copt(a.get("class_ref"), cstr), copt(a.get("authn_auth"), cstr), copt(a.get("authn_instant"), cz), cstr(c["irt"]),
+               cstr(ACS[binding]), cstr(sp_id), obool(f.get("sign_response")), obool(f.get("sign_assertion")), obool(f.get("encrypt_assertion")),
+               copt(KEYNUM[c["give_cert"]] if c["give_cert"] else None, lambda x: "%d%%N" % x), cbool(c["self_contained"]), copt(c["session_nooa"], cz)))
+    return "(%s, %s, %s, %s)" % (idp, md, sp, args)
+
+
+E2E_TYPE = "(idp * sp_md * sp * args)"
+M_RT = "fun x : idp * sp_md * sp * args => match x with (i, m, s, a) => show_roundtrip (roundtrip i m s a) end"
+M_WIRE = "fun x : idp * sp_md * sp * args => match x with (i, m, s, a) => show_wire (sign_encrypt i m a) end"
+M_PAYLOAD = "fun x : idp * sp_md * sp * args => match x with (i, m, s, a) => show_payload_xml (build_payload i a) end"
+
+
+# ---- the documented expectations (oracle side; independent of the model)
+DOCUMENTED_ALIASES = {
+    # (name format, lower-cased local name given to the IdP) -> local name the SP reports (several local names share one wire name)
+    (NF_URI, "pvp-userid"): "uid", (NF_URI, "pvp-mail"): "mail", (NF_URI, "pvp-ou"): "ou", (NF_URI, "pvp-tel"): "telephoneNumber",
+    (NF_URI, "pvp-givenname"): "givenName",
+    (NF_SHIB, "countryname"): "c", (NF_SHIB, "domaincomponent"): "dc", (NF_SHIB, "emailaddress"): "email", (NF_SHIB, "fax"): "facsimileTelephoneNumber",
+    (NF_SHIB, "gn"): "givenName", (NF_SHIB, "localityname"): "l", (NF_SHIB, "organizationname"): "o", (NF_SHIB, "organizationalunitname"): "ou",
+    (NF_SHIB, "pkcs9email"): "email", (NF_SHIB, "rfc822mailbox"): "mail", (NF_SHIB, "stateorprovincename"): "st", (NF_SHIB, "streetaddress"): "street",
+    (NF_SHIB, "surname"): "sn",
+}
+_first_map = None
+
+
+def first_maps():
+    """name format -> (to-table of the first map with that identifier, set of all wire names of the LAST map with it)"""
+    global _first_map
+    if _first_map is None:
+        _first_map = {}
+        last = {}
+        for typ, ident, to, fro in translate_c08.raw_maps():
+            _first_map.setdefault(ident, dict((k.lower(), k) for k, _ in to))
+            last[ident] = set(k.lower() for k, _ in fro)
+        _first_map = (_first_map, last)
+    return _first_map
+
+
+def expected_ava(identity, nf, allow_unknown, report):
+    """what the statement promises the application reads; report(kind, detail) for deviations that are documented / known"""
+    tos, wires = first_maps()
+    out = {}
+    for key, vals in identity.items():
+        lk = key.lower()
+        if nf in tos and lk in tos[nf]:
+            rk = DOCUMENTED_ALIASES.get((nf, lk), tos[nf][lk])
+        else:
+            # not in the map: sent under its own name; the SP keeps it only with allow_unknown_attributes
+            if key.strip().lower() in wires.get(NF_URI, ()):
+                report("unmapped-name-is-a-wire-name", key)
+                return None
+            if not allow_unknown:
+                continue
+            rk = key.strip()
+        out.setdefault(rk, []).extend(v.strip() for v in vals)
+    return out
+
+
+def gen_cases(ctx):
+    rng = ctx.rng
+    pool, outside = name_pool(ctx)
+    vals = [v for v in value_corpus(ctx, 150) if encodable(v) and in_classes(v)]
+    short = [v for v in vals if len(v) <= 60]
+    cases = []
+
+    def rand_case(**fixed):
+        c = default_case()
+        c["ids"] = rng.choice(["plain", "plain", "special"])
+        c["wants"] = tuple(rng.random() < 0.3 for _ in range(3))
+        c["allow_unsolicited"] = rng.random() < 0.2
+        c["allow_unknown"] = rng.random() < 0.35
+        c["slack"] = rng.choice([0, 0, 60])
+        c["sp_enc"] = rng.choice(["own", "own", "none", "two"])
+        c["policy"] = rng.choice(list(POLICIES))
+        c["binding"] = rng.choice(["post", "post", "redirect", "soap"])
+        tri = lambda: rng.choice([None, False, True])  # noqa: E731
+        if rng.random() < 0.3:
+            c["idp_defaults"] = {k: tri() for k in ("sign_response", "sign_assertion", "encrypt_assertion")}
+            c["flags"] = {k: tri() for k in ("sign_response", "sign_assertion", "encrypt_assertion")}
+        else:
+            c["flags"] = {k: rng.random() < 0.5 for k in ("sign_response", "sign_assertion", "encrypt_assertion")}
+        c["give_cert"] = rng.choice([None, None, None, "sp"]) if c["sp_enc"] != "none" else rng.choice([None, None, None, "sp"])
+        c["sign_alg"], c["digest_alg"] = rng.choice(SIG_ALGS), rng.choice(DIGEST_ALGS)
+        c["self_contained"] = rng.random() < 0.7
+        nf = policy_expect(POLICIES[c["policy"]](IDS[c["ids"]][1]), IDS[c["ids"]][1])[1]
+        # (an attribute with an EMPTY name is refused by the SP's schema check: not an attribute name)
+        c["identity"] = rand_identity(ctx, pool, [o for o in outside if o], nf, short if rng.random() < 0.9 else vals, nmax=5)
+        c["name_id"] = dict(text=rng.choice([v for v in short if v] + ["subject-1", "user@example.org"]),
+                            format=rng.choice([NAMEID_FORMAT_PERSISTENT, NAMEID_FORMAT_TRANSIENT, NAMEID_FORMAT_EMAILADDRESS, NAMEID_FORMAT_UNSPECIFIED, None]),
+                            spq=rng.choice([None, IDS[c["ids"]][1], "q\"<&>"]), nq=rng.choice([None, None, IDS[c["ids"]][0]]))
+        c["authn"] = rng.choice([{"class_ref": PASSWORD}, {"class_ref": PASSWORD, "authn_auth": "https://aa.example.org/x?a=1&b=2"},
+                                 {"class_ref": "urn:x:<&>\"'é"}, {"class_ref": rng.choice([v for v in short if v]), "authn_auth": rng.choice([v for v in short if v])},
+                                 {"class_ref": PASSWORD, "authn_instant": NOW - 77}, {"authn_auth": "only-authority"}, {}, None])
+        c["irt"] = rng.choice(["req-1", "id-Xy9_.-z", "r\"<&>'1", "é日本", "id with space"])
+        c["solicited"] = rng.random() < 0.9
+        lifetime = policy_expect(POLICIES[c["policy"]](IDS[c["ids"]][1]), IDS[c["ids"]][1])[0]
+        c["session_nooa"] = rng.choice([None, None, NOW + 40, NOW + lifetime + 500, NOW + 7])
+        c["offset"] = rng.choice([0, 0, 1, 5, lifetime // 2, lifetime - 1, lifetime, lifetime + 1, lifetime + c["slack"], lifetime + c["slack"] + 1,
+                                  -1, -c["slack"], -c["slack"] - 1, 39, 40, 41, 86399, 86400 + c["slack"], 86401 + c["slack"]])
+        c.update(fixed)
+        return c
+
+    # the whole sign x sign x encrypt x SP-requirement x (SP has an encryption certificate or not) product
+    for wants in itertools.product((False, True), repeat=3):
+        for sr, sa, ea in itertools.product((False, True), repeat=3):
+            for sp_enc in ("own", "none"):
+                cases.append(rand_case(wants=wants, flags=dict(sign_response=sr, sign_assertion=sa, encrypt_assertion=ea), sp_enc=sp_enc,
+                                       idp_defaults={}, offset=rng.choice([0, 1, 30]), solicited=True, give_cert=None, session_nooa=None,
+                                       authn=rng.choice([{"class_ref": PASSWORD}, {"class_ref": PASSWORD, "authn_auth": "https://aa.example.org/"}])))
+    # every map name once per format (wrong-row detection), a few per message
+    for nf, polname in ((NF_URI, "default15"), (NF_BASIC, "default-basic"), (NF_UNSPEC, "unspecified"), (NF_SHIB, "shib")):
+        names = [k for k in pool[nf]]
+        rng.shuffle(names)
+        step = 12
+        for i in range(0, len(names), step):
+            ident = {}
+            for k in names[i:i + step]:
+                if k.lower() not in [x.lower() for x in ident]:
+                    ident[rng.choice(case_variants(rng, k))] = [rng.choice(short)]
+            cases.append(rand_case(policy=polname, identity=ident, offset=0, solicited=True, wants=(False, False, False), give_cert=None,
+                                   session_nooa=None, authn={"class_ref": PASSWORD}))
+    for _ in range(150 if ctx.quick else 6000):
+        cases.append(rand_case())
+    # long / many-valued
+    cases.append(rand_case(identity={"givenName": ["v%04d é&<>\" " % i for i in range(1500)], "mail": ["x" * 20000, ""]}, offset=0, solicited=True,
+                           wants=(True, True, False), flags=dict(sign_response=True, sign_assertion=True, encrypt_assertion=True), sp_enc="own",
+                           give_cert=None, session_nooa=None, policy="default15", authn={"class_ref": PASSWORD}, idp_defaults={}))
+    return cases
+
+
+def eff(flag, default):
+    return flag if flag is not None else (default if default is not None else False)
+
+
+def case_key(c):
+    """shape of a case for known-findings keys (never the random content)"""
+    return "wants=%s flags=%s enc=%s" % ("".join("01"[b] for b in c["wants"]),
+                                           "".join("-" if v is None else "01"[v] for v in (c["flags"].get(k) for k in ("sign_response", "sign_assertion", "encrypt_assertion"))),
+                                           c["sp_enc"])
+
+
+def oracle(ctx, c, xml, got):
+    """the property on the implementation alone"""
+    idp_id, sp_id = IDS[c["ids"]]
+    pol = POLICIES[c["policy"]](sp_id)
+    lifetime, nf = policy_expect(pol, sp_id)
+    d = c["idp_defaults"]
+    sr, sa, ea = (eff(c["flags"].get(k), d.get(k)) for k in ("sign_response", "sign_assertion", "encrypt_assertion"))
+    wrs, was, waors = c["wants"]
+    satisfied = (sr or not wrs) and (sa or not was) and ((sr or sa) or not waors)
+    a = c["authn"] or {}
+    in_window = 0 <= c["offset"] < min(lifetime, 86400) and (c["session_nooa"] is None or NOW + c["offset"] < c["session_nooa"])
+    can_open = not (ea and c["give_cert"] and c["sp_enc"] == "none")
+    if not (satisfied and in_window and can_open and (c["solicited"] or c["allow_unsolicited"]) and (a.get("class_ref") or a.get("authn_auth"))):
+        ctx.count("e2e:outside the statement (requirements unmet / outside window / unsolicited / no authn statement)")
+        return
+    replay = {"unit": "e2e", "case": c}
+    shape = case_key(c)
+    if isinstance(xml, Exn) and xml.name == "EncryptError" and ea and not sa and not c["self_contained"]:
+        ctx.count("e2e:IdP raises EncryptError (encrypt_assertion_self_contained=False without sign_assertion: nothing is built)")
+        return
+    if isinstance(xml, Exn):
+        ctx.oracle_fail("idp-raises:%s:%s" % (xml.name, shape), "create_authn_response raised %s" % xml.name, replay)
+        return
+    if isinstance(got, Exn) or got is None:
+        what = got.name if isinstance(got, Exn) else "None"
+        if sa and ea and c["sp_enc"] == "none" and not c["give_cert"] and (was or (waors and not sr)):
+            key = "assertion-signature-dropped:encrypt-requested-but-sp-has-no-encryption-cert"
+        else:
+            key = "rejected:%s:%s:%s" % (what, c["binding"], shape)
+        ctx.oracle_fail(key, "a response built with sign_response=%s sign_assertion=%s encrypt_assertion=%s (SP wants %s, SP encryption cert: %s) "
+                        "is refused by the SP: %s" % (sr, sa, ea, c["wants"], c["sp_enc"], what), replay)
+        return
+    nid, ava, irt, issuer, authn, nooa, came_from = got
+    n = c["name_id"]
+    if nid != [n["text"], n["format"], n["spq"], n["nq"]]:
+        ctx.oracle_fail("name-id-differs:%s" % c["binding"], "asserted NameID %r, SP reads %r" % (n, nid), replay)
+    if irt != c["irt"]:
+        ctx.oracle_fail("in-response-to-differs", "asserted %r, SP reads %r" % (c["irt"], irt), replay)
+    if issuer != idp_id.strip():
+        ctx.oracle_fail("issuer-differs", "issuer %r read as %r" % (idp_id, issuer), replay)
+    want_authn = [[a["class_ref"], [a["authn_auth"]] if a.get("authn_auth") else [], a.get("authn_instant") or NOW]] if a.get("class_ref") else []
+    if authn != want_authn:
+        ctx.oracle_fail("authn-context-differs", "asserted %r, SP reads %r" % (want_authn, authn), replay)
+    want_nooa = c["session_nooa"] if c["session_nooa"] is not None else NOW + lifetime
+    if nooa != want_nooa:
+        ctx.oracle_fail("session-expiry-differs:%s" % ("session" if c["session_nooa"] is not None else "conditions:" + c["policy"]),
+                        "expected not_on_or_after %d, SP reads %d" % (want_nooa, nooa), replay)
+    if c["solicited"] and c["binding"] != "soap" and came_from != "/came-from":
+        ctx.oracle_fail("came-from-differs", "came_from %r" % (came_from,), replay)
+    # attributes
+    if nf not in first_maps()[0]:
+        ctx.count("e2e:name_form without converter (no attribute is sent: configuration error, not asserted)")
+        return
+    notes = []
+    want = expected_ava(c["identity"], nf, c["allow_unknown"], lambda k, dd: notes.append(k))
+    if want is None:
+        ctx.count("e2e:attribute names not asserted (unmapped name equal to a wire name)")
+        return
+    gotd = dict((k, v) for k, v in ava)
+    for k in sorted(set(want) | set(gotd)):
+        w, g = want.get(k), gotd.get(k)
+        if w == g:
+            continue
+        lost = [ik for ik in c["identity"] if (nf, ik.lower()) in (KNOWN_LOST)]
+        if g is None and lost and nf == NF_UNSPEC:
+            for ik in lost:
+                ctx.oracle_fail("name-lost:unspecified:%s" % ik.lower(), "attribute %r sent with name_form unspecified is not delivered by the SP" % ik, replay)
+        elif k == "eduPersonTargetedID" and w is not None and g is not None and len(w) == len(g) and all(
+                x == y or (x == "" and isinstance(y, list)) for x, y in zip(w, g)):
+            ctx.oracle_fail("eptid-empty-value", "an empty eduPersonTargetedID value is read as %r" % ([y for y in g if isinstance(y, list)][:1],), replay)
+        else:
+            ctx.oracle_fail("attribute-differs:%s:%s" % (nf.rsplit(":", 1)[-1], k[:40]), "attribute %r: asserted %r, SP reads %r (identity %r)" % (k, w, g, c["identity"]), replay)
+    ctx.nontriv(("e2e", json.dumps(c, sort_keys=True, default=str)))
+
+
+KNOWN_LOST = {(NF_UNSPEC, "emailaddress"), (NF_UNSPEC, "upn")}
+
+
+def unit_e2e(ctx):
+    world = World()
+    cases = gen_cases(ctx)
+    crt, cw, cpx = [], [], []
+    for i, c in enumerate(cases):
+        xml = build(world, c)
+        got = deliver(world, c, xml) if not isinstance(xml, Exn) else xml
+        oracle(ctx, c, xml, got)
+        ctx.count("e2e:binding=" + c["binding"])
+        ctx.count("e2e:" + ("accepted" if isinstance(got, list) else "refused"))
+        big = sum(len(k) + sum(len(v) for v in vs) for k, vs in c["identity"].items()) > 3000
+        if big:
+            ctx.count("e2e:too large for the model run (oracle only)")
+            continue
+        term = case_coq(c)
+        show = dict((k, c[k]) for k in c)
+        crt.append(dict(id=i, coq=term, impl=got if isinstance(got, list) else Exn("rejected"), show=show))
+        if not isinstance(xml, Exn):
+            rsig, asig, enc, a = inspect(world, c, xml)
+            cw.append(dict(id=i, coq=term, impl=[rsig, asig, enc], show=show))
+            if a is not None:
+                cpx.append(dict(id=i, coq=term, impl=payload_canon(a), show=show))
+            ctx.count("e2e:wire rsig=%d asig=%d enc=%d" % (rsig, asig, enc))
+        if i < 3:
+            ctx.sample(dict(case=show, observed=got if isinstance(got, list) else repr(got)))
+    ctx.correspond("roundtrip", IMPORTS, M_RT, E2E_TYPE, crt, shard=25)
+    ctx.correspond("wire", IMPORTS, M_WIRE, E2E_TYPE, cw, shard=60)
+    ctx.correspond("payload_xml", IMPORTS, M_PAYLOAD, E2E_TYPE, cpx, shard=40)
